@@ -22,6 +22,8 @@ for prop, k, first, strengthening, why in table:
     t0 = time.time()
     while wait and not (os.path.exists(log) and "RESULT:" in open(log).read()) and time.time() - t0 < wait:
         time.sleep(30)
+    if os.path.exists(os.path.join(V, "seeded", "%s-%s%s" % (prop, os.environ.get("SEED_TAG", ""), k), "meta.json")) and "--again" not in sys.argv:
+        continue        # already kept
     if not (os.path.exists(log) and "RESULT: CONFIRMED" in open(log).read()):
         print("SKIP %s-%s: not confirmed" % (prop, k), flush=True)
         continue
